@@ -339,3 +339,255 @@ Proof.
     destruct (offset_shrink (rr_rect r) (fill_inset st) Hrc ltac:(lia)) as (_ & Zw & _ & Zh). cbv zeta in Zw, Zh.
     destruct Hz as [Hz|Hz]; [rewrite (Zw Hz) in E|rewrite (Zh Hz) in E]; lia.
 Qed.
+
+(* ------------------------------------------------------------------------------------------ *)
+(* C18: every corner follows its ideal quarter ellipse within half a pixel                        *)
+(* ------------------------------------------------------------------------------------------ *)
+Lemma ec_contains_ell_in w h u v :
+  0 <= w -> 0 <= h -> ec_contains (ec_new (S w h)) (P u v) = ell_in w h (u * u) (v * v).
+Proof.
+  intros Hw Hh. unfold ec_contains, ec_new, ell_in. cbn [ec_a ec_b ec_threshold px py sw sh].
+  rewrite sq_eq_iff by assumption. destruct (w =? h); reflexivity.
+Qed.
+
+(* squared doubled offsets of the pixel centre from the centre of the corner's ellipse *)
+Definition qX (e : equad) (p : point) : Z := (px p * 2 - px (eq_center_2x e)) * (px p * 2 - px (eq_center_2x e)).
+Definition qY (e : equad) (p : point) : Z := (py p * 2 - py (eq_center_2x e)) * (py p * 2 - py (eq_center_2x e)).
+
+(* the centre is the ideal one: the inner corner of the quadrant box (doubled pixel-centre coordinates) *)
+Lemma quadrant_center_ideal t rad q :
+  1 <= sw rad -> 1 <= sh rad ->
+  eq_center_2x (eq_new t rad q) =
+  P (2 * (if is_left q then px t + sw rad else px t) - 1) (2 * (if is_top q then py t + sh rad else py t) - 1).
+Proof.
+  intros Ha Hb. assert (forall u v : point, px u = px v -> py u = py v -> u = v) as Ext
+    by (intros [ux uy] [vx vy]; cbn [px py]; intros -> ->; reflexivity).
+  apply Ext; cbn [px py]; [rewrite eq_center_x by lia|rewrite eq_center_y by lia]; destruct q; cbn [is_left is_top]; lia.
+Qed.
+
+Lemma quadrant_eq_dec (a b : quadrant) : {a = b} + {a <> b}.
+Proof. decide equality. Qed.
+
+Theorem eq_band t rad q p :
+  1 <= sw rad -> 1 <= sh rad ->
+  let e := eq_new t rad q in
+  (eq_contains e p = true -> ideal_in (2 * sw rad + 1) (2 * sh rad + 1) (qX e p) (qY e p)) /\
+  (ideal_in (2 * sw rad - 1) (2 * sh rad - 1) (qX e p) (qY e p) -> eq_contains e p = true).
+Proof.
+  intros Ha Hb. cbv zeta. rewrite eq_contains_ec, ec_contains_ell_in by lia. unfold qX, qY.
+  replace (sw rad * 2) with (2 * sw rad) by lia. replace (sh rad * 2) with (2 * sh rad) by lia.
+  apply ellipse_band; try lia; apply Z.square_nonneg.
+Qed.
+
+Theorem rr_corner_band r q p :
+  rr_ok r ->
+  let e := corner_quadrant r q in
+  let a := sw (q_radius (conf r) q) in let b := sh (q_radius (conf r) q) in
+  1 <= a -> 1 <= b -> contains (eq_bbox e) p = true ->
+  (rr_contains r p = true -> ideal_in (2 * a + 1) (2 * b + 1) (qX e p) (qY e p)) /\
+  (contains (rr_rect r) p = true ->
+   (forall q', q' <> q -> contains (eq_bbox (corner_quadrant r q')) p = false) ->
+   ideal_in (2 * a - 1) (2 * b - 1) (qX e p) (qY e p) -> rr_contains r p = true).
+Proof.
+  intros Hok. cbv zeta. intros Ha Hb Hbox.
+  assert (exists t, corner_quadrant r q = eq_new t (q_radius (conf r) q) q) as (t & Eq)
+    by (unfold corner_quadrant; fold (conf r); destruct q; eexists; reflexivity).
+  rewrite rr_contains_quadrants by assumption. rewrite Eq in *.
+  destruct (eq_band t (q_radius (conf r) q) q p Ha Hb) as [B1 B2]. cbv zeta in B1, B2. split.
+  - intros H. apply andb_prop in H. destruct H as [_ H]. rewrite forallb_forall in H.
+    specialize (H q (In_quadrants q)). cbv zeta in H. rewrite Eq, Hbox in H. cbn [negb orb] in H. apply B1, H.
+  - intros Hr Hothers Hin. rewrite Hr. cbn [andb]. apply forallb_forall. intros q' _. cbv zeta.
+    destruct (quadrant_eq_dec q' q) as [->|Hne].
+    + rewrite Eq. rewrite (B2 Hin). apply orb_true_r.
+    + rewrite (Hothers q' Hne). reflexivity.
+Qed.
+
+(* ------------------------------------------------------------------------------------------ *)
+(* C08 part: the arithmetic of the family fits its Rust types                                    *)
+(* ------------------------------------------------------------------------------------------ *)
+(* range in which no intermediate of confine / EllipseQuadrant / RoundedRectangleContains / Scanlines leaves its type:
+   base rectangle within +-2^29, sides <= 16383, radii <= 65535 (display-scale inputs are far inside) *)
+Definition rr_small (r : rrect) : Prop :=
+  rr_ok r /\ sw (sz (rr_rect r)) <= 16383 /\ sh (sz (rr_rect r)) <= 16383 /\ radii_le (rr_corners r) 65535.
+
+Lemma confine_step_le M acc rs : snd rs <= M -> fst acc <= M -> fst (confine_step acc rs) <= M.
+Proof.
+  destruct acc as [size cs], rs as [R0 S0]. unfold confine_step. cbn [fst snd]. intros H1 H2.
+  destruct ((S0 <? R0) && ((cs =? 0) || (cs * S0 <? R0 * size))); cbn [fst]; lia.
+Qed.
+
+Lemma confine_step_ge0 acc rs : 0 <= snd rs -> 0 <= fst acc -> 0 <= fst (confine_step acc rs).
+Proof.
+  destruct acc as [size cs], rs as [R0 S0]. unfold confine_step. cbn [fst snd]. intros H1 H2.
+  destruct ((S0 <? R0) && ((cs =? 0) || (cs * S0 <? R0 * size))); cbn [fst]; lia.
+Qed.
+
+Lemma confine_choice_bounds c bb M :
+  radii_nonneg c -> sz_nonneg bb -> sw bb <= M -> sh bb <= M -> 0 <= M ->
+  0 <= fst (confine_choice c bb) <= M /\ (snd (confine_choice c bb) = 0 \/ 0 < snd (confine_choice c bb)).
+Proof.
+  intros (H1 & H2 & H3 & H4) [Hw Hh] Hwm Hhm HM. unfold sz_nonneg in *.
+  pose proof (confine_fold_inv
+    (sw (r_tl c) + sw (r_tr c), sw bb) (sh (r_tr c) + sh (r_br c), sh bb)
+    (sw (r_bl c) + sw (r_br c), sw bb) (sh (r_tl c) + sh (r_bl c), sh bb)) as H.
+  cbn [snd] in H. specialize (H ltac:(lia) ltac:(lia) ltac:(lia) ltac:(lia)). cbv zeta in H.
+  destruct H as (Hok & _). unfold confine_choice. unfold acc_ok in Hok. cbn [fold_left] in *.
+  split; [split|]; [| |lia].
+  - repeat apply confine_step_ge0; cbn [fst snd]; lia.
+  - repeat apply confine_step_le; cbn [fst snd]; lia.
+Qed.
+
+Theorem confine_arith_fits c bb :
+  radii_nonneg c -> sz_nonneg bb -> sw bb <= 65535 -> sh bb <= 65535 -> radii_le c 65535 ->
+  confine_arith_ok c bb = true.
+Proof.
+  intros Hnn Hbb Hw Hh Hle. destruct (confine_choice_bounds c bb 65535 Hnn Hbb Hw Hh ltac:(lia)) as (Hs & Hc).
+  destruct Hnn as ((A1 & B1) & (A2 & B2) & (A3 & B3) & (A4 & B4)). unfold sz_nonneg in *.
+  pose proof (Hle (r_tl c) ltac:(cbn; auto)). pose proof (Hle (r_tr c) ltac:(cbn; auto)).
+  pose proof (Hle (r_br c) ltac:(cbn; auto)). pose proof (Hle (r_bl c) ltac:(cbn; auto)).
+  unfold confine_arith_ok. destruct (confine_choice c bb) as [side cs]. cbn [fst snd] in *.
+  unfold fits_u32, u32_max. repeat (apply andb_true_intro; split); try lia.
+  destruct (0 <? cs); [|reflexivity]. cbn [forallb].
+  repeat (apply andb_true_intro; split); try reflexivity; nia.
+Qed.
+
+Lemma conf_small r :
+  rr_small r ->
+  let c := conf r in
+  (0 <= sw (r_tl c) <= 16383 /\ 0 <= sh (r_tl c) <= 16383) /\ (0 <= sw (r_tr c) <= 16383 /\ 0 <= sh (r_tr c) <= 16383) /\
+  (0 <= sw (r_br c) <= 16383 /\ 0 <= sh (r_br c) <= 16383) /\ (0 <= sw (r_bl c) <= 16383 /\ 0 <= sh (r_bl c) <= 16383) /\
+  radii_fit c (sz (rr_rect r)).
+Proof.
+  intros (Hok & Hw & Hh & _). cbv zeta. destruct (conf_facts r Hok) as [Hnn Hfit].
+  destruct Hnn as ((A1 & B1) & (A2 & B2) & (A3 & B3) & (A4 & B4)). destruct Hfit as (T & Bo & L & Ri).
+  repeat split; lia.
+Qed.
+
+Lemma quadrant_arith_fits t rad q :
+  - bound <= px t <= bound + 32767 -> - bound <= py t <= bound + 32767 ->
+  0 <= sw rad <= 16383 -> 0 <= sh rad <= 16383 -> quadrant_arith_ok t rad q = true.
+Proof.
+  intros Hx Hy Ha Hb. unfold quadrant_arith_ok. unfold bound in *.
+  assert (in_i32 (px (match q with QTopLeft => t | QTopRight => psub_size t (x_axis rad) | QBottomRight => psub_size t rad
+                       | QBottomLeft => psub_size t (y_axis rad) end)) = true /\
+          - 536903679 <= px (match q with QTopLeft => t | QTopRight => psub_size t (x_axis rad) | QBottomRight => psub_size t rad
+                       | QBottomLeft => psub_size t (y_axis rad) end) <= 536903679) as [Ex Bx]
+    by (destruct q; unfold psub_size, x_axis, y_axis, in_i32, i32_min, i32_max; cbn [px py sw sh]; lia).
+  assert (in_i32 (py (match q with QTopLeft => t | QTopRight => psub_size t (x_axis rad) | QBottomRight => psub_size t rad
+                       | QBottomLeft => psub_size t (y_axis rad) end)) = true /\
+          - 536903679 <= py (match q with QTopLeft => t | QTopRight => psub_size t (x_axis rad) | QBottomRight => psub_size t rad
+                       | QBottomLeft => psub_size t (y_axis rad) end) <= 536903679) as [Ey By]
+    by (destruct q; unfold psub_size, x_axis, y_axis, in_i32, i32_min, i32_max; cbn [px py sw sh]; lia).
+  set (etl := match q with QTopLeft => t | QTopRight => psub_size t (x_axis rad) | QBottomRight => psub_size t rad
+                       | QBottomLeft => psub_size t (y_axis rad) end) in *.
+  cbv zeta. unfold fits_u32, fits_u64, in_i32, i32_min, i32_max, u32_max, sat_sub_u32 in *.
+  repeat (apply andb_true_intro; split); try lia; try nia.
+  destruct (sw rad * 2 =? sh rad * 2) eqn:E.
+  - apply andb_true_intro; split; nia.
+  - apply andb_true_intro; split; [nia|].
+    assert (sh rad * 2 * (sh rad * 2) <= 1073610756) by nia. assert (sw rad * 2 * (sw rad * 2) <= 1073610756) by nia.
+    assert (0 <= sh rad * 2 * (sh rad * 2)) by nia. assert (0 <= sw rad * 2 * (sw rad * 2)) by nia. nia.
+Qed.
+
+Theorem rr_arith_fits r : rr_small r -> rr_arith_ok r = true.
+Proof.
+  intros Hs. pose proof (conf_small r Hs) as C. cbv zeta in C.
+  destruct C as ((A1 & B1) & (A2 & B2) & (A3 & B3) & (A4 & B4) & (T & Bo & L & Ri)).
+  destruct Hs as (Hok & Hw & Hh & Hle). pose proof Hok as [[Hp Hsz] Hnn]. unfold point_ok, size_ok, bound in *.
+  destruct (rows_columns_spec (rr_rect r) (proj1 Hok)) as [Hrows Hcols].
+  unfold rr_arith_ok. cbv zeta. fold (conf r). rewrite Hrows, Hcols. cbn [fst snd].
+  unfold corner_quadrant. fold (conf r). rewrite !eq_new_bbox. cbn [tl].
+  unfold padd_size, psub_size, x_axis, y_axis. cbn [px py sw sh].
+  rewrite confine_arith_fits; try assumption; try lia;
+    [|unfold sz_nonneg; lia].
+  rewrite !quadrant_arith_fits by (cbn [px py]; unfold bound; lia).
+  unfold in_i32, i32_min, i32_max. cbn [andb].
+  repeat (apply andb_true_intro; split); lia.
+Qed.
+
+(* EllipseQuadrant::contains is only evaluated at points of the quadrant's box (contains(): mod.rs:400-426 short-circuit;
+   Scanlines: columns of the box, rows of the zone); there every intermediate fits *)
+Theorem quadrant_contains_arith_fits t rad q p :
+  - bound <= px t <= bound + 32767 -> - bound <= py t <= bound + 32767 ->
+  0 <= sw rad <= 16383 -> 0 <= sh rad <= 16383 ->
+  contains (R t rad) p = true -> quadrant_contains_arith_ok (eq_new t rad q) p = true.
+Proof.
+  intros Hx Hy Ha Hb Hc. apply contains_spec in Hc. cbn [tl sz] in Hc. unfold bound in *.
+  unfold quadrant_contains_arith_ok. cbv zeta.
+  replace (eq_ellipse (eq_new t rad q)) with (ec_new (S (sw rad * 2) (sh rad * 2))) by reflexivity.
+  unfold ec_new. cbn [ec_a ec_b sw sh].
+  assert (1 <= sw rad /\ 1 <= sh rad) as [Ha1 Hb1] by lia.
+  rewrite quadrant_center_ideal by assumption. cbn [px py].
+  set (u := px p * 2 - (2 * (if is_left q then px t + sw rad else px t) - 1)).
+  set (v := py p * 2 - (2 * (if is_top q then py t + sh rad else py t) - 1)).
+  assert (- (2 * sw rad) < u < 2 * sw rad) as Hu by (subst u; destruct (is_left q); lia).
+  assert (- (2 * sh rad) < v < 2 * sh rad) as Hv by (subst v; destruct (is_top q); lia).
+  assert (0 <= u * u <= sw rad * 2 * (sw rad * 2)) as Huu by nia.
+  assert (0 <= v * v <= sh rad * 2 * (sh rad * 2)) as Hvv by nia.
+  assert (sw rad * 2 * (sw rad * 2) <= 1073610756) as Hsa by nia. assert (sh rad * 2 * (sh rad * 2) <= 1073610756) as Hsb by nia.
+  unfold in_i32, fits_i64, fits_u64, i32_min, i32_max.
+  assert ((-2147483648 <=? px p * 2) && (px p * 2 <=? 2147483647) = true) as -> by lia.
+  assert ((-2147483648 <=? py p * 2) && (py p * 2 <=? 2147483647) = true) as -> by lia.
+  assert ((-2147483648 <=? u) && (u <=? 2147483647) = true) as -> by lia.
+  assert ((-2147483648 <=? v) && (v <=? 2147483647) = true) as -> by lia.
+  assert ((-9223372036854775808 <=? u * u) && (u * u <=? 9223372036854775807) = true) as -> by lia.
+  assert ((-9223372036854775808 <=? v * v) && (v * v <=? 9223372036854775807) = true) as -> by lia.
+  cbn [andb]. clearbody u v. set (A := sw rad * 2 * (sw rad * 2)) in *. set (B := sh rad * 2 * (sh rad * 2)) in *.
+  set (X := u * u) in *. set (Y := v * v) in *. clearbody A B X Y.
+  destruct (A =? B); [lia|].
+  assert (0 <= B * X <= 1073610756 * 1073610756) by nia. assert (0 <= A * Y <= 1073610756 * 1073610756) by nia.
+  repeat (apply andb_true_intro; split); lia.
+Qed.
+
+(* display-scale inputs (C08's domain: |coordinates| <= 1024, extents <= 1024) are in the range *)
+Lemma display_scale_small r :
+  radii_nonneg (rr_corners r) -> radii_le (rr_corners r) 1024 ->
+  - 1024 <= px (tl (rr_rect r)) <= 1024 -> - 1024 <= py (tl (rr_rect r)) <= 1024 ->
+  0 <= sw (sz (rr_rect r)) <= 1024 -> 0 <= sh (sz (rr_rect r)) <= 1024 -> rr_small r.
+Proof.
+  intros Hnn Hle Hx Hy Hw Hh. unfold rr_small, rr_ok, rect_ok, point_ok, size_ok, bound.
+  split; [split; [split; [split; lia|split; lia]|assumption]|].
+  split; [lia|]. split; [lia|]. intros s Hs. apply Hle in Hs. lia.
+Qed.
+
+(* ------------------------------------------------------------------------------------------ *)
+(* The domain of the theorems in Properties/: model range + every machine intermediate fits       *)
+(* ------------------------------------------------------------------------------------------ *)
+(* rr_ok: no i32/u32 saturation in the Rectangle operations; rr_arith_ok: no overflow in confine (u32 products),
+   EllipseQuadrant / EllipseContains (u32, u64), RoundedRectangleContains::new and the scanline arithmetic (i32).
+   Inside this domain the unbounded model and the Rust code compute the same values. *)
+Definition rr_dom (r : rrect) : Prop := rr_ok r /\ rr_arith_ok r = true.
+Definition styled_dom (r : rrect) (st : style) : Prop := rr_dom (rr_stroke_area r st) /\ rr_dom (rr_fill_area r st).
+
+Lemma rr_dom_ok r : rr_dom r -> rr_ok r.
+Proof. intros [H _]. exact H. Qed.
+Lemma styled_dom_ok r st : styled_dom r st -> styled_ok r st.
+Proof. intros [[H1 _] [H2 _]]. split; assumption. Qed.
+(* a simple sufficient condition: rectangle within +-2^29, sides <= 16383, radii <= 65535 *)
+Lemma rr_small_dom r : rr_small r -> rr_dom r.
+Proof. intros H. split; [apply H|apply rr_arith_fits, H]. Qed.
+
+(* boolean decision of rr_ok (for closed examples) *)
+Definition rr_ok_b (r : rrect) : bool :=
+  let '(RR (R (P x y) (S w h)) (CR (S a1 b1) (S a2 b2) (S a3 b3) (S a4 b4))) := r in
+  (Z.abs x <=? bound) && (Z.abs y <=? bound) && (0 <=? w) && (w <=? bound) && (0 <=? h) && (h <=? bound) &&
+  (0 <=? a1) && (0 <=? b1) && (0 <=? a2) && (0 <=? b2) && (0 <=? a3) && (0 <=? b3) && (0 <=? a4) && (0 <=? b4).
+Lemma rr_ok_b_ok r : rr_ok_b r = true -> rr_ok r.
+Proof.
+  destruct r as [[[x y] [w h]] [[a1 b1] [a2 b2] [a3 b3] [a4 b4]]]. unfold rr_ok_b, rr_ok, rect_ok, point_ok, size_ok, radii_nonneg, sz_nonneg.
+  cbn [rr_rect rr_corners r_tl r_tr r_br r_bl tl sz px py sw sh]. lia.
+Qed.
+Lemma rr_dom_b r : rr_ok_b r && rr_arith_ok r = true -> rr_dom r.
+Proof. intros H. apply andb_prop in H. destruct H as [H1 H2]. split; [apply rr_ok_b_ok, H1|exact H2]. Qed.
+
+Lemma rr_styled_spec_refuted_dom :
+  exists r st bb p,
+    styled_dom r st /\ rr_dom r /\ K06_rrect_fill_outside_stroke r st = true /\ contains bb p = true /\
+    pix_get (writes_of_calls bb (rr_draw r st)) p <>
+    spec_c06 st (rr_contains (rr_stroke_area r st)) (rr_contains (rr_fill_area r st)) p.
+Proof.
+  exists finding_r, finding_st, (R (P (-5) (-5)) (S 40 40)), (P 1 27).
+  split; [split; apply rr_dom_b; vm_compute; reflexivity|].
+  split; [apply rr_dom_b; vm_compute; reflexivity|].
+  split; [vm_compute; reflexivity|]. split; [vm_compute; reflexivity|]. vm_compute. discriminate.
+Qed.
